@@ -1,15 +1,18 @@
 #!/bin/bash
-# tools/try_mutant.sh <patch> <tier> <ID> [<ID> ...]
+# tools/try_mutant.sh <seeded/Cxx/mN | patch file> <tier> <ID> [<ID> ...]
 # Apply a seeded change to /repo, run the given checks (no evidence written), undo the change.  Prints one line per check.
-patch=$1; tier=$2; shift 2
+p=$1; tier=$2; shift 2
+[ -d "$p" ] && p=$p/patch.diff
+patch=$(readlink -f "$p")
+label=$(basename $(dirname $(dirname $patch)))_$(basename $(dirname $patch))
 cd /repo || exit 2
 if ! git diff --quiet; then echo "/repo has uncommitted changes"; exit 2; fi
 git apply "$patch" || { echo "patch does not apply"; exit 2; }
 trap 'git -C /repo checkout -- . ' EXIT
 cd /verif
 for id in "$@"; do
-  out=.work/mut_$(basename "$patch" .diff)_$id.log
+  out=.work/mut_${label}_$id.log
   ./check $id --tier $tier --no-evidence > $out 2>&1
   rc=$?
-  echo "MUTANT $(basename $(dirname $patch))/$(basename $patch) check=$id tier=$tier exit=$rc violations=$(grep -c '^VIOLATION' $out) first=$(grep -m1 -A1 '^VIOLATION' $out | tail -1 | cut -c1-200)"
+  echo "MUTANT $label check=$id tier=$tier exit=$rc violations=$(grep -c '^VIOLATION' $out) first=$(grep -m1 -E '^\s+- \[' $out | cut -c1-220)"
 done
